@@ -703,6 +703,12 @@ func (s *SSEServer) handleNotificationMessage(ctx context.Context, rawMessage js
 
 // handleNotification processes notifications (can be extended for different notification types).
 func (s *SSEServer) handleNotification(ctx context.Context, notification *JSONRPCNotification, session *sseSession) error {
+	// The handshake is complete: from now on the session accepts server notifications
+	// (sendNotificationToSession refuses sessions that are not initialized).
+	if notification.Method == MethodNotificationsInitialized {
+		session.Initialize()
+	}
+
 	// Check if there's a registered handler for this notification method.
 	s.notificationMu.RLock()
 	handler, exists := s.notificationHandlers[notification.Method]
